@@ -169,8 +169,10 @@ class Ctx:
             "coverage": cov, "assumptions": self.assumptions,
             "wall_s": round(time.time() - self.t0, 1), "violations": len(self.violations),
         }
-        os.makedirs(os.path.join(VERIF, "evidence"), exist_ok=True)
-        p = os.path.join(VERIF, "evidence", self.pid + ".json")
+        # evidence describes /repo; a run against a scratch tree (VERIF_REPO) keeps its record with its own build cache
+        edir = os.path.join(VERIF, "evidence") if build.REPO == "/repo" else os.path.join(build.BUILD, "evidence")
+        os.makedirs(edir, exist_ok=True)
+        p = os.path.join(edir, self.pid + ".json")
         with open(p + ".tmp", "w") as fh:
             json.dump(ev, fh, indent=1)
         os.rename(p + ".tmp", p)
